@@ -335,7 +335,7 @@ def run(tier):
                     good = [s for s in case["sites"] if s["unique"] and s["feat"].get("shorter_typed") and judged.get(s["id"]) == "ok"]
                     if good and (len(state["samples_a"]) < 4 or idx < max(state["samples_a"])):
                         s = good[0]
-                        state["samples_a"][idx] = {"case": case["name"], "call_site": s["text"], "typed_candidates": s["cands"], "rule_selects": s["accepted"][0]["name"],
+                        state["samples_a"][idx] = {"case": case["name"], "call_site": s["text"], "typed_candidates": s["cands"], "rule_selects": ("NOT " if s["accepted"][0]["negated"] else "") + s["accepted"][0]["name"],
                                                    "binding": s["accepted"][0]["args"], "pattern_candidates": s["feat"].get("pattern_candidates"), "parser_agreed": True,
                                                    "executable_printed_expected_trace": bool(dyn and dyn[2] == "ok")}
                         for k in sorted(state["samples_a"])[4:]:
